@@ -89,12 +89,12 @@ func getFilteredCodeSetIfNeeded(ctx *RuntimeContext, codeSet *OpcodeSet) (*Opcod
 }
 
 type Compiler struct {
-	structTypeToCode map[uintptr]*StructCode
+	structTypeToCode map[structCodeKey]*StructCode
 }
 
 func newCompiler() *Compiler {
 	return &Compiler{
-		structTypeToCode: map[uintptr]*StructCode{},
+		structTypeToCode: map[structCodeKey]*StructCode{},
 	}
 }
 
@@ -110,8 +110,9 @@ func (c *Compiler) compile(typeptr uintptr) (*OpcodeSet, error) {
 
 func (c *Compiler) codeToOpcodeSet(typ *runtime.Type, code Code) (*OpcodeSet, error) {
 	noescapeKeyCode, err := c.codeToOpcode(&compileContext{
-		structTypeToCodes: map[uintptr]Opcodes{},
+		structTypeToCodes: map[structCodeKey]Opcodes{},
 		recursiveCodes:    &Opcodes{},
+		recursiveKeys:     map[*Opcode]structCodeKey{},
 	}, typ, code)
 	if err != nil {
 		return nil, err
@@ -120,8 +121,9 @@ func (c *Compiler) codeToOpcodeSet(typ *runtime.Type, code Code) (*OpcodeSet, er
 		return nil, err
 	}
 	escapeKeyCode, err := c.codeToOpcode(&compileContext{
-		structTypeToCodes: map[uintptr]Opcodes{},
+		structTypeToCodes: map[structCodeKey]Opcodes{},
 		recursiveCodes:    &Opcodes{},
+		recursiveKeys:     map[*Opcode]structCodeKey{},
 		escapeKey:         true,
 	}, typ, code)
 	if err != nil {
@@ -570,15 +572,15 @@ func (c *Compiler) mapValueCode(typ *runtime.Type) (Code, error) {
 }
 
 func (c *Compiler) structCode(typ *runtime.Type, isPtr bool) (*StructCode, error) {
-	typeptr := uintptr(unsafe.Pointer(typ))
-	if code, exists := c.structTypeToCode[typeptr]; exists {
+	key := structCodeKey{uintptr(unsafe.Pointer(typ)), isPtr}
+	if code, exists := c.structTypeToCode[key]; exists {
 		derefCode := *code
 		derefCode.isRecursive = true
 		return &derefCode, nil
 	}
 	indirect := runtime.IfaceIndir(typ)
 	code := &StructCode{typ: typ, isPtr: isPtr, isIndirect: indirect}
-	c.structTypeToCode[typeptr] = code
+	c.structTypeToCode[key] = code
 
 	fieldNum := typ.NumField()
 	tags := c.typeToStructTags(typ)
@@ -623,7 +625,7 @@ func (c *Compiler) structCode(typ *runtime.Type, isPtr bool) (*StructCode, error
 	if !code.disableIndirectConversion && !indirect && isPtr {
 		code.enableIndirect()
 	}
-	delete(c.structTypeToCode, typeptr)
+	delete(c.structTypeToCode, key)
 	return code, nil
 }
 
@@ -908,20 +910,20 @@ func (c *Compiler) codeToOpcode(ctx *compileContext, typ *runtime.Type, code Cod
 }
 
 func (c *Compiler) linkRecursiveCode(ctx *compileContext) error {
-	recursiveCodes := map[uintptr]*CompiledCode{}
+	recursiveCodes := map[structCodeKey]*CompiledCode{}
 	// ctx.recursiveCodes may grow while linking
 	for i := 0; i < len(*ctx.recursiveCodes); i++ {
 		recursive := (*ctx.recursiveCodes)[i]
-		typeptr := uintptr(unsafe.Pointer(recursive.Type))
-		if recursiveCode, ok := recursiveCodes[typeptr]; ok {
+		key := ctx.recursiveKeys[recursive]
+		if recursiveCode, ok := recursiveCodes[key]; ok {
 			*recursive.Jmp = *recursiveCode
 			continue
 		}
-		codes, exists := ctx.structTypeToCodes[typeptr]
+		codes, exists := ctx.structTypeToCodes[key]
 		if !exists {
 			// the struct has been expanded as an embedded field only,
 			// so there is no program of its own to jump to yet.
-			structCode, err := c.structCode(recursive.Type, false)
+			structCode, err := c.structCode(recursive.Type, key.isPtr)
 			if err != nil {
 				return err
 			}
@@ -929,6 +931,7 @@ func (c *Compiler) linkRecursiveCode(ctx *compileContext) error {
 				escapeKey:         ctx.escapeKey,
 				structTypeToCodes: ctx.structTypeToCodes,
 				recursiveCodes:    ctx.recursiveCodes,
+				recursiveKeys:     ctx.recursiveKeys,
 			}
 			codes = structCode.ToOpcode(structCtx)
 			codes.Last().Next = newEndOp(structCtx, recursive.Type)
@@ -968,7 +971,7 @@ func (c *Compiler) linkRecursiveCode(ctx *compileContext) error {
 		compiled.NextLen = nextTotalLength
 		compiled.Linked = true
 
-		recursiveCodes[typeptr] = compiled
+		recursiveCodes[key] = compiled
 	}
 	// a recursive code is also entered from the frame of a recursive code (its own or
 	// another one's), whose slots must stay intact: skip the largest such frame.
